@@ -387,6 +387,11 @@ def _run_block(stmts, env):
             out = _run_block(s.body if c else s.orelse, env)
             if out is not None:
                 return out
+        elif isinstance(s, ast.Assign) and len(s.targets) == 1 and isinstance(s.targets[0], ast.Name):
+            try:
+                env[s.targets[0].id] = _aeval(s.value, env)
+            except IndexError:
+                env[s.targets[0].id] = False  # short-circuit would have prevented the access: len test fails first
         elif isinstance(s, ast.Continue):
             return "valid"
         elif isinstance(s, ast.Expr) and isinstance(s.value, ast.Yield):
